@@ -94,6 +94,9 @@ def run(ctx):
                 continue
             call = rd[0][0]
             pat = rd[0][1]
+            inner = [c for c in x.conds if c[0] == call + '.Ok.0']
+            if pat == 'Ok(_)' and inner:
+                pat = 'Ok(0)' if inner[0][1] == '0' else ('Ok(_)' if inner[0][1] == 'not 0' else 'Ok(%s)' % inner[0][1])
             kind = [c for c in x.conds if c[0].startswith('std::io::Error::kind(')]
             n += 1
             tag = 'known-size' if x.conds[0][1] == 'Some(_)' else 'unknown-size'
